@@ -8,27 +8,33 @@
 EXTENDS BalanceDef, Randomization
 CONSTANTS NRandom
 VARIABLE cfg
-OptEl == [g0 : BOOLEAN, g1 : BOOLEAN, g2 : BOOLEAN, sg0 : BOOLEAN, sg1 : BOOLEAN, ld0 : BOOLEAN, ld1 : BOOLEAN, ld2 : BOOLEAN,
+OptEl == [g0 : BOOLEAN, g1 : BOOLEAN, g2 : BOOLEAN, g3 : BOOLEAN, sg0 : BOOLEAN, sg1 : BOOLEAN, ld0 : BOOLEAN, ld1 : BOOLEAN, ld2 : BOOLEAN,
           ld3 : BOOLEAN, st0 : BOOLEAN, mo0 : BOOLEAN, sh0 : BOOLEAN, wa0 : BOOLEAN, xw0 : BOOLEAN, al0 : BOOLEAN, as0 : BOOLEAN,
           l2 : BOOLEAN, w0 : BOOLEAN, i0 : BOOLEAN, z0 : BOOLEAN, d0 : BOOLEAN]
-ElNames == {"g0", "g1", "g2", "sg0", "sg1", "ld0", "ld1", "ld2", "ld3", "st0", "mo0", "sh0", "wa0", "xw0", "al0", "as0",
+ElNames == {"g0", "g1", "g2", "g3", "sg0", "sg1", "ld0", "ld1", "ld2", "ld3", "st0", "mo0", "sh0", "wa0", "xw0", "al0", "as0",
             "l2", "w0", "i0", "z0", "d0"}
 ASSUME ElNames = (NodeNames \cup BranchNames) \ Always
 \* the full product space: every element on/off x every option level (about 10^9 configurations; sampled by RandomSubset)
-AllCfgs == [g0 : BOOLEAN, g1 : BOOLEAN, g2 : BOOLEAN, sg0 : BOOLEAN, sg1 : BOOLEAN, ld0 : BOOLEAN, ld1 : BOOLEAN, ld2 : BOOLEAN,
+AllCfgs == [g0 : BOOLEAN, g1 : BOOLEAN, g2 : BOOLEAN, g3 : BOOLEAN, sg0 : BOOLEAN, sg1 : BOOLEAN, ld0 : BOOLEAN, ld1 : BOOLEAN, ld2 : BOOLEAN,
             ld3 : BOOLEAN, st0 : BOOLEAN, mo0 : BOOLEAN, sh0 : BOOLEAN, wa0 : BOOLEAN, xw0 : BOOLEAN, al0 : BOOLEAN, as0 : BOOLEAN,
             l2 : BOOLEAN, w0 : BOOLEAN, i0 : BOOLEAN, z0 : BOOLEAN, d0 : BOOLEAN,
             zip : {"p", "mix", "z"}, vdl : BOOLEAN, mode : {"ac", "dc"}, tmodel : {"t", "pi"}, qlims : BOOLEAN, qtight : BOOLEAN,
-            dslack : BOOLEAN, wts : 1..3, scal : {"one", "half"}, shvn : {"bus", "other"}]
+            dslack : BOOLEAN, wts : 1..3, scal : {"one", "half"}, shvn : {"bus", "other"}, sn : {1, 10}, ls2g : BOOLEAN,
+            shpq : {"std", "equal"}]
 Opts(zip, vdl, mode, ql, ds) == [zip |-> zip, vdl |-> vdl, mode |-> mode, tmodel |-> "t", qlims |-> ql, qtight |-> ql, dslack |-> ds,
-                                 wts |-> 2, scal |-> "one", shvn |-> "other"]
+                                 wts |-> 2, scal |-> "one", shvn |-> "other", sn |-> 1, ls2g |-> TRUE, shpq |-> "std"]
 CornerOpt == {Opts("p", FALSE, "ac", FALSE, FALSE), Opts("mix", TRUE, "ac", FALSE, FALSE), Opts("p", FALSE, "dc", FALSE, FALSE),
-              Opts("p", FALSE, "ac", TRUE, FALSE), Opts("p", FALSE, "ac", FALSE, TRUE), Opts("mix", TRUE, "ac", TRUE, TRUE)}
+              Opts("p", FALSE, "ac", TRUE, FALSE), Opts("p", FALSE, "ac", FALSE, TRUE), Opts("mix", TRUE, "ac", TRUE, TRUE),
+              [Opts("p", FALSE, "ac", FALSE, TRUE) EXCEPT !.sn = 10, !.ls2g = FALSE],
+              [Opts("p", FALSE, "ac", TRUE, TRUE) EXCEPT !.ls2g = FALSE, !.scal = "half"],
+              [Opts("p", FALSE, "ac", FALSE, FALSE) EXCEPT !.shpq = "equal", !.sn = 10]}
 AllOn == [n \in ElNames |-> TRUE]
 AllOff == [n \in ElNames |-> FALSE]
 CornerOn == {AllOn, AllOff} \cup {[AllOn EXCEPT ![n] = FALSE] : n \in ElNames} \cup {[AllOff EXCEPT ![n] = TRUE] : n \in ElNames}
            \cup {[AllOff EXCEPT !["ld0"] = TRUE, !["ld1"] = TRUE], [AllOff EXCEPT !["ld0"] = TRUE, !["sg1"] = TRUE],
-                 [AllOff EXCEPT !["g0"] = TRUE, !["g1"] = TRUE], [AllOff EXCEPT !["g0"] = TRUE, !["xw0"] = TRUE, !["g2"] = TRUE]}
+                 [AllOff EXCEPT !["g0"] = TRUE, !["g1"] = TRUE], [AllOff EXCEPT !["g0"] = TRUE, !["xw0"] = TRUE, !["g2"] = TRUE],
+                 [AllOff EXCEPT !["g3"] = TRUE, !["ld1"] = TRUE], [AllOff EXCEPT !["sh0"] = TRUE, !["wa0"] = TRUE, !["ld1"] = TRUE],
+                 [AllOff EXCEPT !["xw0"] = TRUE, !["ld1"] = TRUE, !["g2"] = TRUE]}
 Corners == {e @@ o : e \in CornerOn, o \in CornerOpt}
 \* configurations the properties speak about
 WellFormed(c) == /\ (c.g1 => c.g0)                                               \* two gens on one bus share the setpoint
@@ -45,5 +51,5 @@ RECURSIVE Reach(_, _)
 Reach(c, S) == LET N == S \cup {b \in Buses : \E a \in S : <<a, b>> \in AdjOK(c) \/ Class(a) = Class(b)} IN IF N = S THEN S ELSE Reach(c, N)
 AllSupplied == Reach(cfg, {0}) = Buses
 EveryClassHasTerminal == \A k \in Classes : TermsInClass(cfg, k) # {}
-SlackParticipant == cfg.dslack => \E n \in {"e0", "g0", "g1", "g2", "xw0"} : On(cfg, n)
+SlackParticipant == cfg.dslack => \E n \in {"e0", "g0", "g1", "g2", "g3", "xw0"} : On(cfg, n)
 =============================================================================
